@@ -61,6 +61,18 @@ claimed = {
    text="Exhaustive bounded schedules of the real UDP template lifetime code (addTemplate with expiry time / AfterFunc / Reset, the timer callback closure, deleteTemplateWithConds, invalidation in decodeTemplateSet, decodeDataSet) against an explicit model of time.AfterFunc timers (armed, fired-but-callback-pending, idle) injected through the collector's clock interface, with time a solver variable: after every event the template store must equal a ghost model (never dropped before its lifetime, gone once a callback ran after the lifetime, invalidated by a bad template), data is accepted exactly when a template is in force, and every stored template has exactly one armed timer targeting t0+TTL or a pending callback while removed ones have no armed timer.",
    note="Bounds: schedules of depth 5 (quick) / 6 (thorough) on 2 keys; callbacks atomic w.r.t. message handling (mutex trusted); real timers, goroutines and parallelism are not explored.",
    tech="symbolic execution of Go SSA + SMT over bounded schedules with an explicit timer-state model and symbolic time"),
+ "C11": dict(cat="model_checking", sec="DESIGN.md section 4, C11",
+   text="The real handleTCPClient (reader goroutine, bufio.Reader.Peek, io.ReadFull, getMessageLength, decodePacket; goroutine and select executed by the engine's cooperative scheduler) is run on an in-memory connection that delivers a stream of a template and two data messages with symbolic values, optionally with one undecodable message at any position, cut into segments at every single position (quick) or every pair of positions (thorough): delivered messages must be exactly the stream's messages up to the first undecodable one, in order, with values that could not have come from another message's bytes (SMT obligation over all values); the connection is closed, the client entry removed, and a second connection is unaffected.",
+   note="Schedules are not enumerated (deterministic run-to-block scheduling); three or more cut points and inter-segment delays are outside the bound; streams of 3-4 short messages.",
+   tech="symbolic execution of Go SSA incl. goroutines under a cooperative scheduler + SMT; exhaustive segmentation split"),
+ "C18": dict(cat="other", sec="DESIGN.md section 4, C18",
+   text="PARTIAL: configuration contract only. Symbolic execution of the real InitExportingProcess / createClientConfig / Start / startTCPServer / createServerConfig / startUDPServer with dial, listen and PEM-parsing functions replaced by recorders decides which dial/listen function go-ipfix calls and with which tls.Config / dtls.Config, for every combination of protocol, settings present/absent, parsing outcomes and a symbolic ServerName. The handshake, chain building, validity, SAN matching and protocol-version negotiation are crypto/tls, crypto/x509 and pion/dtls: trusted, not encoded; the property's certificate matrix is not explored.",
+   note="Trusted base: Go crypto libraries and pion/dtls enforce what the configuration asks. Counterexamples are replayed in the interpreter (the real network environment would be needed natively).",
+   tech="symbolic execution of Go SSA with recorder stubs for the crypto/network environment (configuration contract)"),
+ "C19": dict(cat="other", sec="DESIGN.md section 4, C19",
+   text="PARTIAL: protobuf runtime stubbed as uninterpreted. Symbolic execution of the real PublishIPFIXMessages, SendFlowMessage, both shipped schema convertors and consumer.DecodeAndPrintMsg against a recording sarama.AsyncProducer: one Kafka message per data record in order, none for templates, configured topic; the struct handed to proto.Marshal carries the record's symbolic values and the message's export time, sequence number, domain and exporter address; payload = 4-byte big-endian length + exactly the marshalled bytes (arbitrary symbolic bytes); the consumer hands exactly those bytes to proto.Unmarshal.",
+   note="Not covered: protobuf wire encoding/decoding (trusted). Streams of 1..2 (quick) / 1..3 (thorough) messages with 0..2 records. Counterexamples are replayed in the interpreter.",
+   tech="symbolic execution of Go SSA with an uninterpreted protobuf marshaller"),
 }
 
 NA = {
